@@ -110,6 +110,24 @@ def run(ctx, model_ok):
             f.update({"case": c, "signature": C01.signature(c, f) if f.get("kind") != "silence-leak" else "unlisted", "kind_": "oracle"})
             if f["signature"] == "unlisted" or f["signature"] not in {x["signature"] for x in r["failures"]}:
                 r["failures"].append(f)
+    # while loops and guards on the fragment: model/FragLoop.v against the real rewriter / CPython / runtime under guard schedules (K-loop);
+    # the reference (source semantics + the event stream gated by the guards) is the property itself
+    if model_ok:
+        from props import fragloop
+        ok3, out3 = lib.coq_make(["model/FragLoop.vo"])
+        if not ok3:
+            ctx.tie_broken("correspondence", "model/FragLoop.v does not build", out3)
+        else:
+            extra_l = [dict(x) for x in getattr(ctx, "known_replays", []) + getattr(ctx, "fixed_replays", []) if "rules" in x]
+            nl, okl, distl, viol = fragloop.check(ctx, rng, 60 if ctx.tier == "quick" else 800, extra_cases=extra_l)
+            for f in viol[:2]:
+                f.update({"signature": "unlisted", "kind_": "oracle", "harness": "c10_sem.py"})
+                r["failures"].append(f)
+            r["evaluations"] += nl
+            r["traces_validated"] = r.get("traces_validated", 0) + okl
+            r["distribution"]["k_loop_programs"] = nl
+            r["distribution"]["k_loop_agreeing"] = okl
+            r["distribution"]["k_loop_detail"] = distl
     r["evaluations"] += len(ls)
     r["distribution"]["loop_silence_programs"] = len(ls)
     r["distribution"]["loop_guards_activated"] = nsil
@@ -117,7 +135,9 @@ def run(ctx, model_ok):
     r["distribution"]["silence_templates"] = len(sc)
     r["distribution"]["silence_templates_ok"] = ok
     r["rule"] += ("; C10: every case subscribes to all bracket events (which carry the guard name) plus 35% of the direct events, with a guard schedule "
-                  "(which seen guard, activate/deactivate) consumed at every bracket event; plus 5 silence templates (function guard activated at invocation k) and 60 generated programs in which every loop guard is activated at its first hand-out (no event may then come from inside that loop body)")
+                  "(which seen guard, activate/deactivate) consumed at every bracket event; plus 5 silence templates (function guard activated at invocation k) and 60 generated programs in which every loop guard is activated at its first hand-out (no event may then come from inside that loop body); K-loop: 60 generated programs of the loop fragment (ints / bools / None, 1-2 levels of while loops with else clauses, ~45% raising) x event "
+                  "subsets incl. the three loop events x global guards on 75% x 0-4 guard rules (at the k-th delivered event switch the test / body guard of some loop off or on): tree, "
+                  "exception, bindings and stream vs model/FragLoop.v; the stream vs the gated reference is the oracle")
     return r
 
 
@@ -130,4 +150,13 @@ def replay(ctx, rep):
         return oracle_silence(case, C01.run_impl([case])[0])
     if case.get("silence"):
         return oracle_loop_silence(case, C01.run_impl([case])[0])
+    if "rules" in case:
+        from props import fragloop
+
+        class _Quiet:
+            def tie_broken(self, *a, **k):
+                pass
+        import random
+        _, _, _, viol = fragloop.check(_Quiet(), random.Random(0), 0, extra_cases=[case])
+        return viol[0] if viol else None
     return C01.fails_on_impl(case)
